@@ -1939,9 +1939,8 @@ func (ctx *RenderContext) ToString(val interface{}) string {
 
 	// A pointer to a number, string, slice or map prints what it points to;
 	// formatting the pointer itself would print a memory address
-	if rv := reflect.ValueOf(val); rv.Kind() == reflect.Ptr && !rv.IsNil() &&
-		rv.Elem().Kind() != reflect.Struct && rv.Elem().Kind() != reflect.Ptr && rv.Elem().CanInterface() {
-		return ctx.ToString(rv.Elem().Interface())
+	if target, ok := pointerTarget(val); ok {
+		return ctx.ToString(target)
 	}
 
 	return fmt.Sprintf("%v", val)
